@@ -1342,10 +1342,9 @@ def _model_to_sbml(
         if f_replace and F_GENE_REV in f_replace:
             gid = f_replace[F_GENE_REV](gid)
         gp.setId(gid)
-        gname = cobra_gene.name
-        if gname is None or len(gname) == 0:
-            gname = gid
-        gp.setName(gname)
+        # the name is optional; an unnamed gene is not given its SBML id as name
+        if cobra_gene.name:
+            gp.setName(cobra_gene.name)
         gp.setLabel(gid)
 
         _sbase_annotations(gp, cobra_gene.annotation)
